@@ -28,15 +28,29 @@ def _is_insert(n, helpers):
     helper of the class known to insert."""
     if not (isinstance(n, ast.Call) and isinstance(n.func, ast.Attribute)):
         return False
-    recv = dotted(n.func.value)
+    raw = dotted(n.func.value)
+    # a local standing for the tree (`spTree = self._spTree`), whatever it is called
+    names = {raw, _ALIAS_OF.get(id(n.func.value), raw)}
     a = n.func.attr
-    if recv in TREE_FIELDS and (a.startswith("add_") or a in ("insert_element_before", "append", "insert")):
+    if names & set(TREE_FIELDS) and (a.startswith("add_") or a in ("insert_element_before", "append", "insert")):
         return True
-    if recv == "self" and a in helpers:
+    if raw == "self" and a in helpers:
         return True
-    if recv in ("spTree",) and a.startswith("add_"):
+    if any(x and (x == "spTree" or x.endswith("._spTree")) for x in names) and a.startswith("add_"):
         return True
     return False
+
+
+_ALIAS_OF = {}  # id(Name node) -> source of the field it aliases in its function (registered per analysed function)
+
+
+def _register_aliases(fnode):
+    from sa import paths as P_
+
+    al = {k: ast.unparse(v) for k, v in P_.aliases(fnode).items()}
+    for x in ast.walk(fnode):
+        if isinstance(x, ast.Name) and x.id in al:
+            _ALIAS_OF[id(x)] = al[x.id]
 
 
 MUST_RECALC = set()  # names of group-collection methods every path of which recalculates (computed per run)
@@ -201,6 +215,10 @@ def run(ctx):
                         MUST_RECALC.add(name)
     ctx.count("must_recalc_methods", len(MUST_RECALC))
 
+    for c_ in prog.all_classes():
+        if c_.module.name.startswith(("pptx.shapes.", "pptx.oxml.shapes.")):
+            for f_ in c_.methods.values():
+                _register_aliases(f_.node)
     # private helpers of the class that insert (one level)
     helpers = set()
     for name, f in base.methods.items():
